@@ -106,7 +106,12 @@ example : ∃ s, UReach (U.init 2 7) s ∧ s.child = .signalled ∧ s.earlyClose
   Parent: `Process::write` until the payload `P` is taken (or a write fails), `close(stdinStream)`, `Process::read` on
   stdout/stderr until both reported end-of-file, `join`.  Child: ANY program `prog : List CAct` over
   `readIn n | readAll | writeOut d | writeErr d | closeIn | closeOut | closeErr` (no restriction taken), then `exit(code)`.
-  Every capacity, every redirection mask, every chunking of partial transfers, every schedule. -/
+  Every capacity, every redirection mask, every chunking of partial transfers, every schedule.
+  Modelling assumptions (besides those of `U`): a parent write to a stdin pipe whose read end is gone fails with EPIPE
+  (the parent ignores SIGPIPE; libnstd does not install a handler itself); reads of / writes to a stream that is not
+  redirected or that the child has closed complete at once (they concern objects outside the model); the `close` calls
+  `join()` makes after `waitpid` are not part of `G` (the child has exited by then: `join_returns_exit_code_in_pipe_model`
+  covers that order). -/
 
 /-- PROTOCOL-LEVEL, abstract pipe model, universal over child programs.  For every pipe capacity `cap`, redirection
     mask, payload `P`, child program `prog`, exit code `code` and every state `s` reachable by any schedule and any
@@ -175,6 +180,14 @@ theorem protocol_total_any_child_program_in_pipe_model (cap mask : Nat) (hcap : 
 example : Fits 2 [1, 2, 3] [.writeOut [7], .readIn 1, .writeErr [8, 9], .readAll, .writeOut [10, 11, 12], .closeOut] :=
   .inr ⟨by decide, by decide⟩
 example : Fits 4 [1, 2, 3] [.writeOut [7, 8, 9, 10, 11], .closeIn] := .inl (by decide)
+
+-- the `@io` helper of the correspondence run (read stdin to end-of-file, write stdout, write stderr, exit: the one child
+-- shape of `pipe_protocol_delivers_in_pipe_model`) is the instance `[readAll, writeOut O, writeErr E]`: `Fits` holds for
+-- every capacity and every payload, and the delivered data are `O`, `E` and the whole payload
+example (cap : Nat) (P O E : List Nat) : Fits cap P [.readAll, .writeOut O, .writeErr E] ∧
+    outData [.readAll, .writeOut O, .writeErr E] = O ∧ errData [.readAll, .writeOut O, .writeErr E] = E ∧
+    wantsAll [.readAll, .writeOut O, .writeErr E] = true :=
+  ⟨.inr ⟨Nat.zero_le _, Nat.zero_le _⟩, by simp [outData], by simp [errData], rfl⟩
 
 -- a concrete run (capacity 1, all streams redirected): payload [1], child `readAll; writeOut [2]; exit(3)`
 example : ∃ s, GReach (G.init 1 7 [1] [.readAll, .writeOut [2]] 3) s ∧ s.pPhase = .joined ∧ s.u.reaped = some 3 ∧
